@@ -417,7 +417,8 @@ def drive_allcuts(case):
 # what the *caller* holds is the Deferred those methods return, so that is the "command result" which must fail.
 
 APIS = ["queue_command", "get_info_raw", "get_info", "get_info_single", "get_info_incremental", "get_conf",
-        "get_conf_single", "get_conf_raw", "set_conf", "signal", "add_event_listener", "remove_event_listener"]
+        "get_conf_single", "get_conf_raw", "set_conf", "signal", "add_event_listener", "remove_event_listener", "quit",
+        "protocolinfo"]
 _API_EVENTS = ["CIRC", "STREAM", "ORCONN", "NOTICE", "ADDRMAP", "HS_DESC"]
 
 
@@ -489,6 +490,10 @@ def drive_api(case):
                 return proto.set_conf("Opt%d" % n, "v")
             if api == "signal":
                 return proto.signal("NEWNYM")
+            if api == "quit":
+                return proto.quit()
+            if api == "protocolinfo":
+                return proto.protocolinfo()
             ev = _API_EVENTS[n % len(_API_EVENTS)]
             # SETEVENTS is only sent for the first listener of an event / when its last listener goes: the other
             # calls submit no command and are not judged
